@@ -85,6 +85,7 @@ type pcase struct {
 	mtsf   string
 	mf, mt bool // model: flv / ts worker alive
 	impl   d.PipeOut
+	ran    bool
 }
 
 func (p *pcase) extra() string {
@@ -118,6 +119,18 @@ func badPayloads(r *Rng, valid []byte, all bool) (out [][]byte, tags []string) {
 			b := append([]byte(nil), valid...)
 			b[i] = v
 			add(b, "corruption")
+		}
+	}
+	// 16-bit big-endian fields (sizes, lengths) set to boundary values
+	for i := 0; i+1 < len(valid) && i < 6; i++ {
+		vals := []uint16{0x0000, 0x0001, 0x000f, 0x0010, 0x7fff, 0x8000, 0xfff8, 0xfff9, 0xffff}
+		if !all {
+			vals = []uint16{vals[r.Intn(len(vals))]}
+		}
+		for _, v := range vals {
+			b := append([]byte(nil), valid...)
+			b[i], b[i+1] = byte(v>>8), byte(v)
+			add(b, "corruption-16bit-field")
 		}
 	}
 	return
@@ -174,6 +187,10 @@ func baseCase(g *d.Gen, c *Ctx, i int) *d.Case {
 		}
 	}
 	cs.Skip = len(pre)
+	if r.Chance(35) {
+		cs.Hdr = 1 + r.Intn(6) // CSRC list / header extensions / padding: all legal RTP
+	}
+	c.Count(fmt.Sprintf("pipe-rtp-header-variant-%d", cs.Hdr))
 	if inband {
 		cs.Tags = append(cs.Tags, "inband-ps")
 		c.Count("pipe-setup-inband-parameter-sets")
@@ -287,9 +304,35 @@ func genPipes(c *Ctx, tbl *d.SpsTable) {
 					p[i] = shortAlphabet[r.Intn(len(shortAlphabet))]
 				}
 				bad, tag = []d.Elem{mk(p, b.c.Aac && r.Chance(30))}, "short-alphabet"
-			case x < 72:
+			case x < 68:
 				p := r.Bytes(r.Intn(40))
 				bad, tag = []d.Elem{mk(p, b.c.Aac && r.Chance(30))}, "random-bytes"
+			case x < 76:
+				// length fields at their boundaries: AU-headers-length / AU sizes (RFC 3640), NAL sizes of
+				// an aggregation packet (16-bit, big-endian)
+				f16 := func(vals ...uint16) []byte {
+					v := vals[r.Intn(len(vals))]
+					return []byte{byte(v >> 8), byte(v)}
+				}
+				if b.c.Aac && r.Chance(60) {
+					p := f16(0, 1, 8, 15, 16, 17, 31, 32, 48, 0x7fff, 0x8000, 0xfff0, 0xfff8, 0xfff9, 0xfffc, 0xffff)
+					for j := r.Intn(4); j > 0; j-- {
+						p = append(p, f16(0, 8, 0x0040, 0xfff8, 0xffff, uint16(r.U64()))...)
+					}
+					p = append(p, r.Bytes(r.Intn(12))...)
+					bad, tag = []d.Elem{mk(p, true)}, "aac-length-fields-boundary"
+				} else {
+					p := []byte{0x78}
+					if b.c.Codec == "h265" {
+						p = []byte{0x60, 0x01}
+					}
+					for j := 1 + r.Intn(3); j > 0; j-- {
+						body := r.Bytes(r.Intn(6))
+						p = append(p, f16(0, 1, 2, uint16(len(body)), uint16(len(body)+1), 0x00ff, 0x0100, 0x7fff, 0x8000, 0xffff)...)
+						p = append(p, body...)
+					}
+					bad, tag = []d.Elem{mk(p, false)}, "aggregation-size-fields-boundary"
+				}
 			case x < 88:
 				p := r.Bytes(r.Intn(36))
 				if len(p) >= 2 && r.Chance(70) {
@@ -306,6 +349,15 @@ func genPipes(c *Ctx, tbl *d.SpsTable) {
 					bad = append(bad, mk(r.Bytes(r.Intn(8)), false))
 				}
 				tag = "burst"
+			}
+			if k%3 == 2 {
+				// corruption IN PLACE: a packet of the stream itself (same sequence number, timestamp,
+				// marker — e.g. the middle fragment of a fragmented unit, one packet of an aggregation)
+				// arrives truncated / with a damaged header byte / as garbage
+				if sv := substituted(r, b); sv != nil {
+					vs = append(vs, sv)
+					continue
+				}
 			}
 			pos := r.Intn(len(b.c.Elems) + 1)
 			v := &pcase{c: variant(b.c, bad, pos), asc: ascPool[r.Intn(len(ascPool))], badTag: tag}
@@ -355,6 +407,52 @@ func genPipes(c *Ctx, tbl *d.SpsTable) {
 	runPipes(c, tbl, vs)
 }
 
+// substituted derives a case in which one or two media packets of the base stream arrive damaged
+func substituted(r *Rng, b *pcase) *pcase {
+	// positions of the media packets after the parameter-set prefix
+	first := 0
+	for _, e := range b.c.Elems[:b.c.Skip] {
+		first += e.NPkts()
+	}
+	var cand []int
+	for i, w := range b.m.Pkts {
+		if i >= first && (w.Ch == 0 || w.Ch == 2) && len(w.Payload) > 0 {
+			cand = append(cand, i)
+		}
+	}
+	if len(cand) == 0 {
+		return nil
+	}
+	v := *b.c
+	v.Tags = append([]string{}, b.c.Tags...)
+	v.Subs = nil
+	n := 1
+	if r.Chance(25) {
+		n = 2
+	}
+	used := map[int]bool{}
+	for i := 0; i < n; i++ {
+		pos := cand[r.Intn(len(cand))]
+		if used[pos] {
+			continue
+		}
+		used[pos] = true
+		w := b.m.Pkts[pos]
+		var data []byte
+		switch x := r.Intn(100); {
+		case x < 70:
+			bp, _ := badPayloads(r, w.Payload, false)
+			data = bp[r.Intn(len(bp))]
+		case x < 85:
+			data = r.Bytes(r.Intn(20))
+		default:
+			data = append(append([]byte{}, w.Payload...), r.Bytes(1+r.Intn(6))...) // grown
+		}
+		v.Subs = append(v.Subs, d.Sub{Pos: pos, Data: data})
+	}
+	return &pcase{c: &v, asc: ascPool[0], badTag: "substituted-in-place"}
+}
+
 func candsOf(cs *d.Case) [][]byte {
 	var cd [][]byte
 	if len(cs.Sps) > 0 {
@@ -390,6 +488,9 @@ func runPipes(c *Ctx, tbl *d.SpsTable, ps []*pcase) {
 		hi := lo + batch
 		if hi > len(ps) {
 			hi = len(ps)
+		}
+		if d.Stopped {
+			return
 		}
 		runPipeBatch(c, tbl, ps[lo:hi])
 	}
@@ -438,7 +539,11 @@ func runPipeBatch(c *Ctx, tbl *d.SpsTable, ps []*pcase) {
 				order[k] = k
 			}
 		}
+		if d.Stopped {
+			break
+		}
 		p.impl = d.RunPipeline(p.c, p.m.Pkts, order, p.asc)
+		p.ran = true
 		nBad, after := 0, false
 		for _, e := range p.c.Elems {
 			switch e.Kind {
@@ -451,6 +556,9 @@ func runPipeBatch(c *Ctx, tbl *d.SpsTable, ps []*pcase) {
 					after = true
 				}
 			}
+		}
+		if len(p.c.Subs) > 0 {
+			nBad, after = nBad+1, true
 		}
 		c.Eval(p.line, nBad > 0 && after)
 		if p.badTag != "" {
@@ -498,6 +606,9 @@ func runPipeBatch(c *Ctx, tbl *d.SpsTable, ps []*pcase) {
 		}
 	}
 	for _, p := range ps {
+		if !p.ran {
+			continue
+		}
 		if len(c.Res.Samples) < 8 && (p.corpus || p.badTag != "") {
 			l := p.line
 			if len(l) > 260 {
@@ -533,7 +644,8 @@ func comparePipe(c *Ctx, p *pcase) {
 		c.Find(Finding{Kind: "corr", Class: "pipe-" + class, Case: p.line, Impl: impl, Model: model})
 	}
 	if im.Hung {
-		c.Find(Finding{Kind: "oracle", Class: p.c.Codec + ":goroutine-hung-after-" + badName(p), Case: p.line, Impl: "a converter goroutine made no progress for 60 s", Spec: "every packet is consumed"})
+		// stable: the goroutine did not reach its next schedule point within HangBudget (5 min), nor did it log a panic
+		c.Find(Finding{Kind: "oracle", Class: p.c.Codec + ":goroutine-hung-after-" + badName(p), Case: p.line, Impl: fmt.Sprintf("the %s goroutine made no progress for %v (arrival index %d)", im.HungAt, d.HangBudget, im.Stopped), Spec: "every packet is consumed"})
 		return
 	}
 	if im.Alive != m.Alive || im.FAlive != p.mf || (im.HasTs && im.TAlive != p.mt) {
@@ -694,6 +806,9 @@ func flushRecv(c *Ctx) {
 	}
 	lg := d.NewLogCapture()
 	for ci, rc := range recvQ {
+		if d.Stopped {
+			break
+		}
 		var wire []byte
 		for _, f := range rc.frames {
 			wire = append(wire, d.Interleaved(f.ch, f.data)...)
